@@ -161,9 +161,13 @@ def application_candidates(P, R, rid):
 def disability_accepted(P, R, rid):
     """enable/disable events are taken from CHECKED and RUNNING peers and update the entry of their sender."""
     u = P.unit('Context.on_process_disability_event')
-    body = [s for s in u.node.body if not (isinstance(s, ast.Expr) and isinstance(s.value, ast.Constant))]
-    ok = len(body) == 1 and isinstance(body[0], ast.If) and not body[0].orelse and \
-        ast.unparse(body[0].test) == 'status.state in [SupvisorsInstanceStates.CHECKED, SupvisorsInstanceStates.RUNNING]'
+    # the state condition under which the flag is updated is exactly "CHECKED or RUNNING" (not narrower)
+    from ..paths import factmap, cf
+    fm = factmap(u)
+    upd = [x for x in own_nodes(u.node) if isinstance(x, ast.Call) and isinstance(x.func, ast.Attribute)
+           and x.func.attr == 'update_disability']
+    want = cf('status.state in [SupvisorsInstanceStates.CHECKED, SupvisorsInstanceStates.RUNNING]', True)
+    ok = len(upd) == 1 and {tuple(f) for f in fm.at(upd[0]) if 'status.state' in f[0]} == {want}
     R.check(rid, ok, 'disability events are accepted from CHECKED and RUNNING peers', 'disability|accept', u.loc(),
             'Context.on_process_disability_event is not under `status.state in [CHECKED, RUNNING]`: an event dropped '
             'leaves a stale enabled flag and a start is sent where the program is disabled')
